@@ -164,6 +164,18 @@ pub fn build_module(log: Log, subs: SubRegistry, auto_sub: bool) -> RpcModule<()
 	}
 	{
 		let log = log.clone();
+		m.register_method("seqadd", move |p, _, ext| {
+			log_invocation(&log, ext, "seqadd", &p);
+			// element-by-element decoding, as the code generated by the rpc macro does
+			let mut seq = p.sequence();
+			let a: u32 = seq.next()?;
+			let b: u32 = seq.next()?;
+			Ok::<u64, ErrorObjectOwned>(a as u64 + b as u64)
+		})
+		.unwrap();
+	}
+	{
+		let log = log.clone();
 		m.register_method("len", move |p, _, ext| {
 			log_invocation(&log, ext, "len", &p);
 			p.as_str().map(|s| s.len()).unwrap_or(0)
@@ -447,6 +459,8 @@ pub enum Entry {
 	Tower,
 	/// low-level `ws::connect` / `http::call_with_service_builder` under a `tower::service_fn`
 	LowLevel,
+	/// `Server::start` with its own accept loop on the simulated listener (hook H4)
+	Default,
 }
 
 #[derive(Debug, Clone)]
@@ -493,6 +507,7 @@ pub struct World {
 	pub conn_guard: ConnectionGuard,
 	ll_conn_id: Arc<AtomicU32>,
 	pub conns: Vec<(Ctl, tokio::task::JoinHandle<()>)>,
+	listener: Option<usize>,
 }
 
 impl World {
@@ -526,14 +541,39 @@ impl World {
 			server_handle: Some(server_handle),
 			ll_conn_id: Arc::default(),
 			conns: Vec::new(),
+			listener: None,
 		}
+	}
+
+	/// For `Entry::Default`: build and start the real server on the simulated listener.
+	pub async fn start(&mut self) {
+		if self.cfg.entry != Entry::Default {
+			return;
+		}
+		let rpc_mw = RpcServiceBuilder::new().layer(StampLayer(self.log.clone()));
+		let server = jsonrpsee_server::Server::builder().set_config(self.server_cfg.clone()).set_rpc_middleware(rpc_mw).build("127.0.0.1:0").await.expect("simulated bind");
+		self.listener = Some(jsonrpsee_core::verif::net::listeners() - 1);
+		let handle = server.start(self.methods.clone());
+		// the harness-made stop channel is not used by the default server
+		self.stop_handle = None;
+		self.server_handle = Some(handle);
 	}
 
 	/// A new simulated TCP connection to the server; returns the peer's end.
 	pub fn connect(&mut self, label: &str) -> (End, Ctl) {
 		let (a, b, ctl) = stream::pair(label, self.cfg.frag);
+		if self.cfg.entry == Entry::Default {
+			let k = self.listener.expect("World::start() must be awaited first");
+			let addr = std::net::SocketAddr::from(([127, 0, 0, 1], 40000 + self.conns.len() as u16));
+			rt::event("tcp-connect", label);
+			let _ = jsonrpsee_core::verif::net::incoming(k, Ok((jsonrpsee_core::verif::net::TcpStream::new(b), addr)));
+			let h = rt::spawn("noop", async {});
+			self.conns.push((ctl.clone(), h));
+			return (a, ctl);
+		}
 		let stop_handle = self.stop_handle.clone().expect("server not stopped");
 		let h = match self.cfg.entry {
+			Entry::Default => unreachable!(),
 			Entry::Tower => {
 				let svc = self.svc_builder.clone().build(self.methods.clone(), stop_handle.clone());
 				rt::spawn("conn", async move {
@@ -586,9 +626,19 @@ impl World {
 		B: http_body::Body<Data = bytes::Bytes> + Send + 'static,
 		B::Error: Into<jsonrpsee_core::BoxError>,
 	{
-		let stop_handle = self.stop_handle.clone().expect("server not stopped");
+		let (stop_handle, _keep) = match self.stop_handle.clone() {
+			Some(s) => (s, None),
+			None => {
+				// default server: direct tower calls use a service of their own
+				let (s, h) = stop_channel();
+				(s, Some(h))
+			}
+		};
 		let mut svc = self.svc_builder.clone().build(self.methods.clone(), stop_handle);
-		async move { tower::Service::call(&mut svc, req).await.expect("tower service is infallible") }
+		async move {
+			let _keep = _keep;
+			tower::Service::call(&mut svc, req).await.expect("tower service is infallible")
+		}
 	}
 
 	pub fn drop_stop_handle(&mut self) {
